@@ -148,7 +148,11 @@ def run(ctx: core.Ctx):
                 lev = max(idx[0], len(w) - 1 - idx[-1]) / max(1, idx[-1] - idx[0])
                 # recorded finding: extrapolation beyond the weighted span in the stiff regime; over 1,200 sampled cases every failure has
                 # lambda * leverage^2 >= 2.6e8 (leverage = extrapolated distance / span of the weighted cells)
-                sig = "ws2d:float-accuracy:extrapolation" if (lev >= 1 and float(lam) * lev * lev >= 1e8) else "ws2d:float-accuracy"
+                # ... and a second regime found by the thorough tier: a long extrapolated tail with a soft curve (lambda around 0.05): the
+                # error grows like gap^4 * eps (gap = number of cells beyond the last weighted one): 1.0e-6 .. 1.4e-6 at gap 380 .. 398,
+                # 7e-8 at gap 200, 4e-9 at gap 100 (measured for lambda 1e-3 .. 1e4, 2 / 5 / 20 weighted cells)
+                gap = max(idx[0], len(w) - 1 - idx[-1])
+                sig = "ws2d:float-accuracy:extrapolation" if (lev >= 1 and (float(lam) * lev * lev >= 1e8 or gap >= 330)) else "ws2d:float-accuracy"
                 ctx.fail("ws2d", dict(y=y, lam=str(lam), w=[str(v) for v in w], n=len(y), leverage=lev), dict(rel_err=err),
                          "<= 1e-6 relative to the exact solution", signature=sig, note="float64 accuracy clause")
     ctx.notes["float_cases_bit_identical_to_model"] = f"{bit_equal}/{len(fcases)}"
